@@ -262,9 +262,56 @@ def temporal_case(ctx, rng, idx):
         ctx.sample({"kind": "averaged", "object": S.describe()})
 
 
+def long_tail_case(ctx, rng, idx):
+    """A dense core (one hyperedge of 30-45 nodes: leading eigenvalue 29-44) with a pendant PATH of 5-8 links: the far end of the
+    path has a component of 1e-10 ... 1e-17 on the leading eigenvector, and yet exp(lambda) times its square is a real share of
+    its diagonal entry of expm(A).  Reference: the Taylor series of expm(A), all terms non-negative (no cancellation); judged
+    to 1e-6 in the logarithm."""
+    from hypergraphx.measures.sub_hypergraph_centrality import subhypergraph_centrality
+    import hypergraphx as hgx
+
+    core, tail = rng.randint(30, 45), rng.randint(5, 8)
+    ctx.event(f"dense-core-with-a-long-tail:{core}+{tail}")
+    base = rng.choice([0, 100])
+    es = [tuple(range(base, base + core))] + [(base + core - 1 + i, base + core + i) for i in range(tail)]
+    if rng.random() < 0.5:
+        es.append((base + 3, base + 5000))
+    rng.shuffle(es)
+    h = hgx.Hypergraph(es)
+    nodes = sorted(h.get_nodes())
+    row = {n: i for i, n in enumerate(nodes)}
+    N = len(nodes)
+    A = np.zeros((N, N))
+    for e in es:
+        for a, b in itertools.permutations(e, 2):
+            A[row[a], row[b]] += 1
+    term, total = np.eye(N), np.eye(N)
+    for k in range(1, 2000):
+        term = term @ A / k
+        total = total + term
+        if term.max() < 1e-18 * total[total > 0].min():
+            break
+    ref = np.log(np.diag(total))
+    r = call(subhypergraph_centrality, h)
+
+    def wit(x=None):
+        return {"core": core, "tail": tail, "extra": repr(x)[:600]}
+
+    if isinstance(r, _Raised):
+        ctx.check("C20:subhypergraph", False, f"C20:subhypergraph_centrality:raised:{type(r.e).__name__}:long-tail", lambda: wit(r))
+        return
+    got = np.asarray(r, dtype=float).ravel()
+    ok = got.shape == ref.shape and np.allclose(got, ref, rtol=0, atol=1e-6)
+    ctx.check("C20:subhypergraph", ok, "C20:subhypergraph_centrality:differs-from-log-diag-expm:long-tail", lambda: wit((float(np.abs(got - ref).max()) if got.shape == ref.shape else got.shape, got[-4:].tolist(), ref[-4:].tolist())))
+    ctx.distinct_add(("long-tail", core, tail))
+
+
 def subhg_case(ctx, rng, idx):
     from hypergraphx.measures.sub_hypergraph_centrality import subhypergraph_centrality
     import hypergraphx as hgx
+
+    if idx in (6, 10) or (ctx.tier == "thorough" and idx % 400 == 22):
+        return long_tail_case(ctx, rng, idx)
 
     h, uni = gen_hypergraph(rng)
     S = observe(h)
